@@ -30,11 +30,11 @@ type c10Cfg struct {
 }
 
 type c10Params struct {
-	Kind  string `json:"kind"` // pairs | random | history
-	Cfg   c10Cfg `json:"cfg"`
-	Shard int    `json:"shard"`
-	Shards int   `json:"shards"`
-	N     int    `json:"n"`
+	Kind   string `json:"kind"` // pairs | random | history
+	Cfg    c10Cfg `json:"cfg"`
+	Shard  int    `json:"shard"`
+	Shards int    `json:"shards"`
+	N      int    `json:"n"`
 }
 
 func init() {
